@@ -12,7 +12,7 @@ from harness import common as C
 
 THEOREMS = {
     'RsomeV.Props.C18Upper': ['RsomeV.C18Upper.socp_block_complete', 'RsomeV.C18Upper.socp_block_iff', 'RsomeV.C18Upper.socp_exp_upper', 'RsomeV.C18Upper.socp_sandwich',
-                               'RsomeV.C18Upper.socp_lower_cut_gap', 'RsomeV.C18Upper.toSocp_complete', 'RsomeV.C18Upper.toSocp_sound_orig'],
+                               'RsomeV.C18Upper.socp_lower_cut_tight', 'RsomeV.C18Upper.old_lower_cut_gap', 'RsomeV.C18Upper.socp_block_exp_lower_orig', 'RsomeV.C18Upper.toSocp_sound', 'RsomeV.C18Upper.toSocp_complete', 'RsomeV.C18Upper.toSocp_sound_orig'],
     'RsomeV.Props.C18': ['RsomeV.C18.socp_carry', 'RsomeV.C18.socp_carry_feas', 'RsomeV.C18.socp_feas_block', 'RsomeV.C18.socp_block_sound',
                          'RsomeV.C18.socp_block_sound_div', 'RsomeV.C18.taylor4_close', 'RsomeV.C18.taylor4_pow_close_two_pow',
                          'RsomeV.C18.socp_block_exp_lower', 'RsomeV.C18.socp_exp_lower'],
@@ -115,6 +115,29 @@ def run(ctx):
             else:
                 ctx.count('accurate:deg%d' % degree)
                 ctx.sample(dict(case, relative_error=float(rel)), limit=4)
+    # user-given cuts: every exponent INSIDE the cut-off range (also within one unit of the lower cut) is approximated to 1e-3
+    for cuts in ((-4.0, 4.0), (-4.5, 4.5), (-6.0, 5.0)):
+        for solver, sname in ((eco_solver, 'ecos'), (grb_solver, 'gurobi')):
+            lo = cuts[0]
+            pool = [max(lo, -4.0), max(lo, -4.0) + 0.1, max(lo, -4.0) + 0.4, -3.0, 0.5, 2.5, 4.0]
+            cvals = [float(v) for v in r.choice(pool[:3], 2, replace=False)] + [float(r.choice(pool[3:]))]
+            degree = int(r.choice([4, 5, 6]))
+            ctx.search_cases += 1; ctx.evaluations += 1
+            case = {"cvals": cvals, "degree": degree, "solver": sname, "cuts": list(cuts)}
+            try:
+                approx = []
+                for c in cvals:         # one cone per model: the relative error of each exponent separately
+                    m, x, t = model([c])
+                    with C.quiet():
+                        m.soc_solve(solver, degree=degree, cuts=cuts, display=False)
+                    approx.append(float(m.get()))
+            except Exception as ex:
+                ctx.hit('soc_solve-raises:' + type(ex).__name__, {"error": str(ex)[:200]}, case); continue
+            rel = [abs(a - np.exp(c)) / np.exp(c) for a, c in zip(approx, cvals)]
+            if max(rel) > 1e-3:
+                ctx.hit('soc-approximation-inaccurate-inside-user-cuts', {"approx": approx, "exact": [float(np.exp(c)) for c in cvals], "relative_error": [float(v) for v in rel]}, case)
+            else:
+                ctx.count('accurate:user-cuts')
     # mixed model: the model's own SOC constraint and bounds must survive
     for degree in (4, 6):
         for solver, sname in ((eco_solver, 'ecos'), (grb_solver, 'gurobi')):
